@@ -1,0 +1,23 @@
+//go:build verif
+
+// Machine-checked contracts for package clock (comment-only; read by /verif/gocv).
+
+package clock
+
+//@ type Mock
+//@   field now guarded_by RWMutex
+//@   field timers guarded_by RWMutex
+
+//@ func afters.Less
+//@   prop C17
+//@   requires 0 <= i && i < len(a) && 0 <= j && j < len(a)
+
+//@ func afters.Swap
+//@   prop C17
+//@   requires 0 <= i && i < len(a) && 0 <= j && j < len(a)
+
+//@ func (*Mock).lockedSet
+//@   prop C13 C17
+//@   flag entrylocks
+//@   requires held(mu(m.RWMutex)) == 2
+//@   ensures held(mu(m.RWMutex)) == 2
